@@ -148,6 +148,8 @@ impl ComplexSelector {
 
         let mut i1 = 0;
         let mut i2 = 0;
+        // the combinator that precedes the current component of `self`
+        let mut previous_combinator: Option<Combinator> = None;
 
         loop {
             let remaining1 = self.components.len() - i1;
@@ -168,13 +170,18 @@ impl ComplexSelector {
             }
 
             if remaining1 == 1 {
-                let parents = other
+                let parents: Vec<ComplexSelectorComponent> = other
                     .components
                     .iter()
                     .take(other.components.len() - 1)
                     .skip(i2)
                     .cloned()
                     .collect();
+
+                if !Self::compatible_with_previous_combinator(previous_combinator, &parents) {
+                    return false;
+                }
+
                 return compound1.is_super_selector(
                     other.components.last().unwrap().as_compound(),
                     &Some(parents),
@@ -209,6 +216,13 @@ impl ComplexSelector {
                 return false;
             }
 
+            if !Self::compatible_with_previous_combinator(
+                previous_combinator,
+                &other.components[i2..after_super_selector - 1],
+            ) {
+                return false;
+            }
+
             if let Some(ComplexSelectorComponent::Combinator(combinator1)) =
                 self.components.get(i1 + 1)
             {
@@ -230,6 +244,7 @@ impl ComplexSelector {
                     return false;
                 }
 
+                previous_combinator = Some(*combinator1);
                 i1 += 2;
                 i2 = after_super_selector + 1;
             } else if let Some(ComplexSelectorComponent::Combinator(combinator2)) =
@@ -238,12 +253,55 @@ impl ComplexSelector {
                 if combinator2 != &Combinator::Child {
                     return false;
                 }
+                previous_combinator = None;
                 i1 += 1;
                 i2 = after_super_selector + 1;
             } else {
+                previous_combinator = None;
                 i1 += 1;
                 i2 = after_super_selector;
             }
+        }
+    }
+
+    /// Whether the components of the other selector that were skipped before
+    /// the component that follows `previous` can lie between the two
+    /// components that `previous` joins.
+    ///
+    /// `a + c` and `a > c` say that `c` immediately follows `a`, so nothing
+    /// may be skipped; `a ~ c` allows further siblings in between, but no
+    /// step to another level of the document.
+    fn compatible_with_previous_combinator(
+        previous: Option<Combinator>,
+        skipped: &[ComplexSelectorComponent],
+    ) -> bool {
+        if skipped.is_empty() {
+            return true;
+        }
+
+        match previous {
+            None => true,
+            Some(Combinator::FollowingSibling) => {
+                let mut after_compound = false;
+                for component in skipped {
+                    match component {
+                        ComplexSelectorComponent::Combinator(
+                            Combinator::FollowingSibling | Combinator::NextSibling,
+                        ) => after_compound = false,
+                        ComplexSelectorComponent::Combinator(..) => return false,
+                        ComplexSelectorComponent::Compound(..) => {
+                            // two compounds in a row are joined by the descendant combinator
+                            if after_compound {
+                                return false;
+                            }
+                            after_compound = true;
+                        }
+                    }
+                }
+                // the last skipped compound must itself be a sibling of what follows
+                !after_compound
+            }
+            Some(..) => false,
         }
     }
 
